@@ -1,5 +1,239 @@
-(* C17 — placeholder while the proofs are being written *)
-From Verif Require Import Base.Sx Base.GoSem Model.Mask.
-Theorem c17_placeholder : mask_value [] [] [] MCut = Ok None.
-Proof. reflexivity. Qed.
-Print Assumptions c17_placeholder.
+(* C17 — Mask hides every matched secret and touches nothing else.
+   Only statements, each closed by [exact]; proofs live in Proofs/Mask.v.
+   The regexp engine is an oracle: [idxs] / [oracle] stand for what Regexp.FindAllSubmatchIndex returns;
+   the hypothesis on it is [re_wf] (matches ascending and disjoint inside the value, every group inside its
+   match or -1, groups pairwise nested or disjoint), checked on every run against Go's regexp.
+   The model is the REPAIRED code (fixes/C17-mask-groups.patch, fixes/C17-mask-cut-recopy.patch).       *)
+From Verif Require Import Base.Sx Base.GoSem Base.Json Model.Mask Proofs.Mask.
+From Coq Require Import Lia.
+
+(* ---- cfg.VerifyGroupNumbers: what Start lets through is a list of existing groups ----------------- *)
+Theorem c17_verify_groups_range :
+  forall gs total out, verify_groups gs total = Ok out -> groups_ok total out.
+Proof. exact verify_groups_range. Qed.
+Print Assumptions c17_verify_groups_range.
+
+(* ---- maskValue ------------------------------------------------------------------------------------ *)
+(* never a run-time panic: for every value, every well-formed result of the regexp engine, every list of
+   existing groups (any subset, any order, nested, optional ones that did not take part) and every mode *)
+Theorem c17_mask_value_total :
+  forall value nsub idxs groups mode,
+    re_wf (len value) nsub idxs -> groups_ok nsub groups ->
+    is_panic (mask_value value idxs groups mode) = false.
+Proof. exact mask_value_total. Qed.
+Print Assumptions c17_mask_value_total.
+
+(* the masked value: the value is cut into segments; the kept ones are copied byte for byte and in
+   order, every hidden one is replaced ([repl]: asterisks / the replace word / nothing); the hidden
+   segments are ranges of selected groups that took part in a match, and EVERY such range lies inside a
+   hidden segment (an inner selected group is hidden as part of the outer one) *)
+Theorem c17_mask_value_spec :
+  forall value nsub idxs groups mode,
+    re_wf (len value) nsub idxs -> groups_ok nsub groups -> idxs <> [] ->
+    exists segs,
+      mask_value value idxs groups mode = Ok (Some (masked mode segs)) /\
+      orig segs = value /\
+      (forall r, In r (hidden_ranges 0 segs) -> selected idxs groups r) /\
+      (forall r, selected idxs groups r -> exists c, In c (hidden_ranges 0 segs) /\ covers c r).
+Proof. exact mask_value_spec. Qed.
+Print Assumptions c17_mask_value_spec.
+
+(* no match: the caller keeps the value (and sets no mark for this mask) *)
+Theorem c17_mask_value_nomatch :
+  forall value groups mode, mask_value value [] groups mode = Ok None.
+Proof. exact mask_value_nomatch. Qed.
+Print Assumptions c17_mask_value_nomatch.
+
+(* asterisk mode: a hidden section becomes asterisks only - one per rune (as utf8.RuneCount counts),
+   at most max_count when that is positive, and at least one for a non-empty secret *)
+Theorem c17_asterisks :
+  forall mc secret, exists n,
+    repl (MMask mc) secret = repeat STAR n /\
+    (secret <> [] -> (1 <= n)%nat) /\ Z.of_nat n <= rune_count secret /\
+    (mc <= 0 -> Z.of_nat n = rune_count secret) /\ (0 < mc -> Z.of_nat n = Z.min (rune_count secret) mc).
+Proof. exact repl_mask_stars. Qed.
+Print Assumptions c17_asterisks.
+
+Theorem c17_rune_count_bounds :
+  forall l, 0 <= rune_count l <= len l /\ (l <> [] -> 1 <= rune_count l) /\
+            (Forall (fun c => (c < 128)%N) l -> rune_count l = len l).
+Proof.
+  exact (fun l => conj (rune_count_bounds l) (conj (rune_count_pos l) (rune_count_ascii l))).
+Qed.
+Print Assumptions c17_rune_count_bounds.
+
+(* ---- match rules (cfg/matchrule) ------------------------------------------------------------------- *)
+(* Match of a prepared rule never panics and decides exactly "some value is a prefix / infix / suffix of
+   the data" (lower-cased when case-insensitive), negated when inverted *)
+Theorem c17_rule_match_spec :
+  forall r raw, r_values r <> [] -> rule_match (prepare r) raw = Ok (rule_spec r raw).
+Proof. exact rule_match_spec. Qed.
+Print Assumptions c17_rule_match_spec.
+
+(* ---- the whole plugin: Start, then Do on every event ---------------------------------------------- *)
+(* never a panic, for every configuration (accepted or refused by Start), every event and every answer of
+   the regexp engine (answers that are not well formed stop the model with an error, never a panic) *)
+Theorem c17_plugin_total :
+  forall inh cfg oracle evs,
+    (forall i b, is_panic (oracle i b) = false) -> is_panic (run_plugin inh cfg oracle evs) = false.
+Proof. exact run_plugin_total. Qed.
+Print Assumptions c17_plugin_total.
+
+(* frame: every event keeps its skeleton - keys and their order, array lengths, null and bool values; a
+   string or number is itself or has become a string. The only other change of the root object: the
+   configured mark fields (mask_applied_field, the masks' applied_field) are set to strings / appended *)
+Theorem c17_mask_tree_frame :
+  forall inh cfg oracle evs evs' n cs,
+    run_plugin inh cfg oracle evs = Ok (evs', n, cs) ->
+    exists ks, compile_masks (c_masks cfg) = Ok ks /\
+               Forall2 (event_frame (mark_names ks cfg)) evs evs'.
+Proof. exact run_plugin_frame. Qed.
+Print Assumptions c17_mask_tree_frame.
+
+Theorem c17_frame_without_marks :
+  forall root root', event_frame [] root root' -> same_shape root root'.
+Proof. exact event_frame_no_marks. Qed.
+Print Assumptions c17_frame_without_marks.
+
+(* a sub-tree under a node for which no mask is in force (ignored / not processed for every mask, no
+   longer list entry below) is returned unchanged and fires nothing *)
+Theorem c17_ignored_unchanged :
+  forall inh masks fl oracle v fm,
+    should_check fm = false ->
+    (forall i k, nth_error masks i = Some k -> applicable fl k i fm = false) ->
+    traverse inh masks fl oracle fm v = Ok (v, false, []).
+Proof. exact (fun inh masks fl oracle v fm H1 H2 => traverse_dead inh masks fl oracle v fm (conj H1 H2)). Qed.
+Print Assumptions c17_ignored_unchanged.
+
+(* ---- process / ignore field lists ------------------------------------------------------------------ *)
+(* the node carried to the JSON path p is [fm_at] (one [next_fm] per path element) *)
+Theorem c17_fields_node_at_path :
+  forall inh n k p q, next_fm inh (Some n) k = Some (fm_at inh n [k]) /\
+                      fm_at inh n (p ++ q) = fm_at inh (fm_at inh n p) q.
+Proof. exact (fun inh n k p q => conj (next_fm_is_fm_at inh n k) (fm_at_app inh p q n)). Qed.
+Print Assumptions c17_fields_node_at_path.
+
+(* what the code does: a list entry q is in force at p iff q is a prefix of p and q = p or no entry of ANY
+   list lies strictly below q *)
+Theorem c17_fields_code :
+  forall p n t,
+    In ([], t) (fm_at false n p) <->
+    exists q, In (q, t) n /\ is_prefix q p /\ (q = p \/ ~ exists e, In e n /\ strict_prefix q (fst e)).
+Proof. exact fm_at_code. Qed.
+Print Assumptions c17_fields_code.
+
+(* what the README promises ("all nested fields will be processed / ignored"): plain prefix *)
+Theorem c17_fields_readme :
+  forall p n t, In ([], t) (fm_at true n p) <-> exists q, In (q, t) n /\ is_prefix q p.
+Proof. exact fm_at_inherit. Qed.
+Print Assumptions c17_fields_readme.
+
+(* the two differ: mask 0 processes "a", mask 1 processes "a.b"; below "a" the code applies mask 0
+   nowhere, so the secret "s" of a.c and a.b survives (KNOWN FINDING C17-fields-overlap-not-inherited) *)
+Definition c17_ov_mask (proc : list path) : mask :=
+  {| m_re := true; m_nsub := 1; m_groups := [1]; m_mode := MMask 0; m_rules := [];
+     m_afield := []; m_avalue := []; m_metric := false; m_ign := []; m_proc := proc |}.
+Definition c17_ov_cfg : config :=
+  {| c_masks := [c17_ov_mask [[[97%N]]]; c17_ov_mask [[[97%N]; [98%N]]]];
+     c_afield := []; c_avalue := []; c_metric := true; c_ign := []; c_proc := [] |}.
+Definition c17_ov_table : table :=   (* (s) and (t) on "st", (t) on "*t" *)
+  [(0%nat, [115; 116]%N, [[0; 1; 0; 1]]); (1%nat, [115; 116]%N, [[1; 2; 1; 2]]); (1%nat, [42; 116]%N, [[1; 2; 1; 2]])].
+Definition c17_ov_event (c b : bytes) : json :=
+  JObj [([97%N], JObj [([99%N], JStr c); ([98%N], JStr b)])].
+
+Theorem c17_fields_prefix_refuted :
+  run_plugin false c17_ov_cfg (lookup c17_ov_table) [c17_ov_event [115; 116]%N [115; 116]%N]
+    = Ok ([c17_ov_event [115; 116]%N [115; 42]%N], 1, [0; 0]) /\
+  run_plugin true c17_ov_cfg (lookup c17_ov_table) [c17_ov_event [115; 116]%N [115; 116]%N]
+    = Ok ([c17_ov_event [42; 116]%N [42; 42]%N], 1, [0; 0]) /\
+  ~ prefix_free (all_entries c17_ov_cfg).
+Proof.
+  split; [vm_compute; reflexivity|]. split; [vm_compute; reflexivity|].
+  intros H. apply (H ([[97%N]], TProc 0) ([[97%N]; [98%N]], TProc 1)); cbn; auto.
+  split; [cbn; auto | cbn; lia].
+Qed.
+Print Assumptions c17_fields_prefix_refuted.
+
+(* the strongest true restriction: when no entry of a list lies strictly above an entry of the same or
+   another list, the code computes exactly what the README semantics prescribes, on every event *)
+Theorem c17_fields_prefix_partial :
+  forall cfg oracle evs,
+    prefix_free (all_entries cfg) -> run_plugin false cfg oracle evs = run_plugin true cfg oracle evs.
+Proof. exact run_plugin_partial. Qed.
+Print Assumptions c17_fields_prefix_partial.
+
+(* the link between the levels: one mask in force on one non-empty value = one maskValue on the regexp's
+   answer for that value (with several masks, mask i+1 sees what mask i left: pm_loop, by definition) *)
+Theorem c17_leaf_single_mask :
+  forall k fl oracle fm s idxs,
+    s <> [] -> applicable fl k 0 fm = true -> check_match_rules (k_rules k) s = Ok true ->
+    k_apply k = true -> oracle 0%nat s = Ok idxs -> re_wf (len s) (k_nsub k) idxs ->
+    process_mask [k] fl oracle fm s =
+      (mv <- mask_value s idxs (k_groups k) (k_mode k) ;;
+       Ok (match mv with Some out => (out, true, [0%nat]) | None => (s, false, []) end)).
+Proof. exact process_mask_single. Qed.
+Print Assumptions c17_leaf_single_mask.
+
+(* ---- the applied marks and counters: exactly when some mask fired ---------------------------------- *)
+(* processMask on one string / number value: mask j is reported ([fired] feeds applied_field, the
+   per-mask counter and maskApplied) only if it is in force at the node, its match rules accept the
+   node's value and - when it has a regexp with groups - that regexp matched; the value is rewritten iff
+   a fired mask has a regexp with groups; nothing fired = value untouched *)
+Theorem c17_applied_iff :
+  forall masks fl oracle fm s out upd fired,
+    process_mask masks fl oracle fm s = Ok (out, upd, fired) ->
+    (forall j, In j fired ->
+       exists k, nth_error masks j = Some k /\ applicable fl k j fm = true /\
+                 check_match_rules (k_rules k) s = Ok true /\
+                 (k_apply k = true -> exists src idxs, oracle j src = Ok idxs /\ idxs <> [])) /\
+    (upd = true <-> exists j k, In j fired /\ nth_error masks j = Some k /\ k_apply k = true) /\
+    (fired = [] -> out = s /\ upd = false).
+Proof. exact process_mask_fired. Qed.
+Print Assumptions c17_applied_iff.
+
+(* one mask application reports "applied" iff the regexp matched (also when every selected group of the
+   match was an optional group that did not take part: the value is unchanged, the mark is set) *)
+Theorem c17_applied_iff_matched :
+  forall value nsub idxs groups mode r,
+    re_wf (len value) nsub idxs -> groups_ok nsub groups ->
+    mask_value value idxs groups mode = Ok r -> (r <> None <-> idxs <> []).
+Proof. exact mask_value_applied_iff. Qed.
+Print Assumptions c17_applied_iff_matched.
+
+(* Do on one event: no mask fired = the event is returned as it came; some mask fired = the root object
+   carries mask_applied_field = mask_applied_value (when configured) *)
+Theorem c17_event_mark_iff :
+  forall inh masks fl oracle cfg root root' fired,
+    ~ In [] (c_proc cfg) ->
+    do_event inh masks fl oracle cfg root = Ok (root', fired) ->
+    (fired = [] -> root' = root) /\
+    (fired <> [] -> c_afield cfg <> [] -> forall fs, root = JObj fs ->
+       exists fs', root' = JObj fs' /\ field_get fs' (c_afield cfg) = Some (JStr (c_avalue cfg))).
+Proof. exact do_event_mark. Qed.
+Print Assumptions c17_event_mark_iff.
+
+(* ---- non-vacuity ------------------------------------------------------------------------------------ *)
+(* a(b)? with group 1 on "ab a" (second match: the group did not take part), asterisks;
+   (a(b)) with groups [2,1] (out of order, nested) on "xaby", replace word "X" *)
+Example c17_mask_value_nonvacuous :
+  re_wf 4 1 [[0; 2; 1; 2]; [3; 4; -1; -1]] /\ groups_ok 1 [1] /\
+  mask_value [97; 98; 32; 97]%N [[0; 2; 1; 2]; [3; 4; -1; -1]] [1] (MMask 0) = Ok (Some [97; 42; 32; 97]%N) /\
+  re_wf 4 2 [[1; 3; 1; 3; 2; 3]] /\ groups_ok 2 [2; 1] /\
+  mask_value [120; 97; 98; 121]%N [[1; 3; 1; 3; 2; 3]] [2; 1] (MReplace [88%N]) = Ok (Some [120; 88; 121]%N).
+Proof.
+  split; [vm_compute; reflexivity|]. split; [intros g [<-|[]]; lia|]. split; [vm_compute; reflexivity|].
+  split; [vm_compute; reflexivity|]. split; [intros g [<-|[<-|[]]]; lia|]. vm_compute; reflexivity.
+Qed.
+
+(* non-overlapping lists: mask (s) processes "a" only; {"a":{"c":"st"},"b":"st"} -> {"a":{"c":"*t"},"b":"st"},
+   the plugin counter counts one event *)
+Example c17_plugin_nonvacuous :
+  let cfg := {| c_masks := [c17_ov_mask [[[97%N]]]]; c_afield := []; c_avalue := []; c_metric := true; c_ign := []; c_proc := [] |} in
+  prefix_free (all_entries cfg) /\
+  run_plugin false cfg (lookup c17_ov_table)
+    [JObj [([97%N], JObj [([99%N], JStr [115; 116]%N)]); ([98%N], JStr [115; 116]%N)]]
+  = Ok ([JObj [([97%N], JObj [([99%N], JStr [42; 116]%N)]); ([98%N], JStr [115; 116]%N)]], 1, [0]).
+Proof.
+  split; [|vm_compute; reflexivity].
+  intros e1 e2 [<-|[]] [<-|[]] [_ H]. cbn in H. lia.
+Qed.
